@@ -1,10 +1,10 @@
 package checks
 
 import (
-	"strings"
 	"fmt"
 	"math/rand"
 	"sort"
+	"strings"
 
 	textwire "github.com/textwire/textwire/v2"
 	"github.com/textwire/textwire/v2/fail"
